@@ -161,10 +161,16 @@ func (g *gen) fileBody(p plan, i int, missing bool) []sx.Stmt {
 	var names []string
 	body := g.content(0, &names)
 	me := p.names[i]
+	topUsed := false
 	for _, j := range p.imports[i] {
 		sp := g.spell(me, p.names[j])
-		switch g.r.Intn(4) {
+		form := g.r.Intn(4)
+		if form == 0 && topUsed {
+			form = 1 + g.r.Intn(3) // only one import can be "at the top of the file"
+		}
+		switch form {
 		case 0:
+			topUsed = true
 			// spread at the top of the file
 			body = append([]sx.Stmt{{T: "si", Path: sp}}, body...)
 			g.c.Count("form:spread-top")
@@ -242,7 +248,7 @@ func observePath(top, raw string) map[string]any {
 }
 
 func (g *gen) rawPath() string {
-	segs := []string{"a", "b", "sub", "..", ".", "x", "deep", "q1"}
+	segs := []string{"a", "b", "sub", "x", "deep", "q1"} // dots are key separators: "." / ".." only lead (Pre)
 	pre := g.pick([]string{"", "", "./", "../", "../../", ".//", "./../"})
 	n := 1 + g.r.Intn(4)
 	var parts []string
